@@ -9,6 +9,11 @@ func chanAddr[T any](ch <-chan T) uintptr {
 	return uintptr(*(*unsafe.Pointer)(unsafe.Pointer(&ch)))
 }
 
+// ChanAddr is the identity of a channel for happens-before bookkeeping.
+func ChanAddr[T any](ch chan T) uintptr {
+	return uintptr(*(*unsafe.Pointer)(unsafe.Pointer(&ch)))
+}
+
 // Recv is `<-ch`.
 func Recv[T any](ch <-chan T) T {
 	v, _ := Recv2(ch)
